@@ -288,7 +288,12 @@ class Run:
         if res == "skip":
             return None
         desc = f"{op['entry']}({op['arg']}: {op['kind']} at row {op['pos']} of {len(op['rows'])})"
-        post = self.snapshot()
+        try:
+            post = self.snapshot()
+        except (OverflowError, ValueError) as e:
+            return self.F_("C11", "oracle", f"{where}: malformed call {desc} "
+                           f"{'raised ' + str(exc) if res == 'raised' else 'was accepted without an error'} and left "
+                           f"non-finite values in the archive ({type(e).__name__}: {e})")
         if res == "accepted":
             # a malformed call that is silently accepted must at least not touch the archive (this happens when
             # no row would be inserted: the store returns before looking at the fields)
